@@ -396,6 +396,11 @@ func (kcp *KCP) Send(buffer []byte) int {
 					capacity := int(kcp.mss) - len(seg.data)
 					extend := min(len(buffer), capacity)
 
+					// reject before touching the queue when the rest cannot be fragmented
+					if len(buffer)-extend > 255*int(kcp.mss) {
+						return -2
+					}
+
 					// grow slice, the underlying cap is guaranteed to
 					// be larger than kcp.mss
 					oldlen := len(seg.data)
